@@ -72,5 +72,14 @@ def optimize_ir(
         passes = [common_passes.InlinePass(), *passes]
     optimizer_pass = ir.passes.Sequential(*passes)
     assert optimizer_pass.in_place
+    declared_outputs = [(v.name, v.type, v.shape) for v in model.graph.outputs]
     result = optimizer_pass(model)
     assert result.model is model
+    # A pass may replace a graph output by an equal value that takes over its name but has no
+    # type or shape of its own (common subexpression elimination): keep the declared type.
+    for value, (name, type_, shape) in zip(model.graph.outputs, declared_outputs):
+        if value.name == name:
+            if value.type is None:
+                value.type = type_
+            if value.shape is None:
+                value.shape = shape
